@@ -218,7 +218,7 @@ Definition out_id (o : outcome) : nat :=
   match o with OBlocked => 0 | OCut => 1 | OAborted => 2 | ORetry => 3 | ORaised => 4 end.
 Definition case_branches (x : case) : list nat :=
   match x with
-  | CStream y => 0 :: map (fun b => 1 + b) (Stream.case_branches y)
+  | CStream y => 0 :: map (fun b => if Nat.eqb b 21 then 38 else 1 + b) (Stream.case_branches y)
   | CHandshake client h _ =>
     [match (if client then client_handshake h else remoter_handshake h) with
      | HsConnected => 22 | HsPending => 23 | HsAborted => 24 | HsRaised => 25 end + (if client then 4 else 0)]
@@ -228,4 +228,4 @@ Definition case_branches (x : case) : list nat :=
     flat_map (fun s => (match ps_res s with Ok _ => 35 | Exc _ => 36 end) ::
                        (if is_nil (ps_closed s) then [] else [37])) o
   end.
-Definition n_branches : nat := 38.
+Definition n_branches : nat := 39.
